@@ -6,6 +6,7 @@ pub mod c03;
 pub mod c04;
 pub mod c05;
 pub mod c06;
+pub mod c07;
 pub mod c08;
 pub mod c09;
 pub mod c10;
@@ -30,6 +31,7 @@ pub fn run(id: &str, tier: Tier, seed: u64) -> i32 {
         "C04" => c04::run(&Ctx::new(id, tier, seed, 60.0, 900.0)),
         "C05" => c05::run(&Ctx::new(id, tier, seed, 60.0, 600.0)),
         "C06" => c06::run(&Ctx::new(id, tier, seed, 45.0, 480.0)),
+        "C07" => c07::run(&Ctx::new(id, tier, seed, 90.0, 900.0)),
         "C08" => c08::run(&Ctx::new(id, tier, seed, 60.0, 600.0)),
         "C09" => c09::run(&Ctx::new(id, tier, seed, 45.0, 360.0)),
         "C10" => c10::run(&Ctx::new(id, tier, seed, 40.0, 360.0)),
@@ -94,6 +96,7 @@ pub fn worker_main(args: &[String]) -> i32 {
         }
         Some("compile-hash") => c06::worker(&args[1..]),
         Some("bristol-import") => c11::worker(&args[1..]),
+        Some("fe") => c07::worker(&args[1..]),
         _ => 2,
     }
 }
